@@ -204,6 +204,27 @@ Theorem C08_head_is_oldest : forall h p,
   /\ forall r rest, glk p (g_ents g) = r :: rest -> Forall (fun r' => (g_birth r < g_birth r')%nat) rest.
 Proof. exact head_is_oldest. Qed.
 
+
+(* non-vacuity of the hypotheses of the step theorems above, on a state reached by a three-way
+   merge: an accepted and a refused update, a completion removing two requests, a refused
+   completion, a refused call, a broadcast, an untouched partition, a live piece that survives an
+   update with its progress point raised and one that is removed by the completion naming it *)
+Example C08_step_hypotheses_inhabited :
+  let s := fst (trun [] [Add 0 0 5; Add 0 10 15; Add 0 4 15; Add 1 7 9]) in
+  let g := grun ginit [Add 0 0 5; Add 0 10 15; Add 0 4 15; Add 1 7 9] in
+  s = [(0, [(0, 15); (4, 15)]); (1, [(7, 9)])]
+  /\ lookup 0 s = Some ((0, 15) :: [(4, 15)])
+  /\ terr (update s 0 3 15) = false /\ terr (update s 0 3 14) = true
+  /\ existsb (ends_at 15) [(0, 15); (4, 15)] = true /\ existsb (ends_at 5) [(0, 15); (4, 15)] = false
+  /\ terr (tstep s (Complete 0 5)) = true
+  /\ In (0, [(3, 15); (4, 15)]) (tout (tstep s (Update 0 3 15)))
+  /\ op_part (Update 0 3 15) = Some 0 /\ lookup 1 (ts (tstep s (Update 0 3 15))) = Some [(7, 9)]
+  /\ ~ In 1 (map fst (tout (tstep s (Update 0 3 15))))
+  /\ map piece_rng (pieces_of 0 g) = [(0, 5); (4, 15); (10, 15); (4, 15)]
+  /\ map piece_rng (pieces_of 0 (gstep g (Update 0 3 15))) = [(3, 5); (4, 15); (10, 15); (4, 15)]
+  /\ pieces_of 0 (gstep g (Complete 0 15)) = [].
+Proof. vm_compute. repeat split; try reflexivity. - left. reflexivity. - intros [H|[]]. discriminate. Qed.
+
 (* the decision procedure evaluated on the implementation's observations accepts the model on
    EVERY history *)
 Theorem C08_spec_sound : forall i, spec_c08 i (model_obs i) = [].
